@@ -65,31 +65,50 @@ pub fn determinism_check(scn: &Scenario, abort: &Abort) -> RunLog {
     a
 }
 
+/// What is kept of one execution: full run logs of a whole level (millions at bound 3-4) do not fit in memory.
+struct Slim {
+    plan: Plan,
+    findings: Vec<Finding>,
+    class: String,
+    trace_hash: u64,
+    n_sends: usize,
+    datagrams: u64,
+    /// send indices at which a further deviation may be placed
+    child_ks: Vec<usize>,
+}
+
+fn slim(scn: &Scenario, cfg: &ExploreCfg, plan: Plan, l: &RunLog) -> Slim {
+    let start = plan.last().map(|x| x.0 + 1).unwrap_or(0).max(cfg.min_k);
+    let child_ks = l.wire.iter().filter(|w| w.k != usize::MAX && w.k >= start && (cfg.eligible)(l, w)).map(|w| w.k).collect();
+    Slim {
+        findings: (cfg.judge)(scn, &plan, l),
+        class: classify(l),
+        trace_hash: l.trace_hash,
+        n_sends: l.n_sends,
+        datagrams: l.wire.iter().filter(|w| !w.injected && w.parse_ok).count() as u64,
+        child_ks,
+        plan,
+    }
+}
+
 pub fn explore(ctx: &Ctx, scn: &Scenario, cfg: &ExploreCfg) -> ExploreResult {
     let mut res = ExploreResult::default();
     let mut seen: HashSet<u64> = HashSet::new();
     let base = determinism_check(scn, &Abort::None);
-    let mut level: Vec<(Plan, RunLog)> = vec![(vec![], base)];
+    let mut level: Vec<Slim> = vec![slim(scn, cfg, vec![], &base)];
+    drop(base);
     for d in 0..=cfg.max_dev {
-        // judge this level
-        let judged: Vec<(Vec<Finding>, String, u64, usize, u64)> = level
-            .par_iter()
-            .map(|(p, l)| {
-                let fs = (cfg.judge)(scn, p, l);
-                let dg = l.wire.iter().filter(|w| !w.injected && w.parse_ok).count() as u64;
-                (fs, classify(l), l.trace_hash, l.n_sends, dg)
-            })
-            .collect();
-        for ((p, _), (fs, class, h, n, dg)) in level.iter().zip(judged.into_iter()) {
+        // account for this level (judged when it was executed)
+        for s in level.iter_mut() {
             res.runs += 1;
-            res.datagrams_validated += dg;
-            if seen.insert(h) {
+            res.datagrams_validated += s.datagrams;
+            if seen.insert(s.trace_hash) {
                 res.distinct_traces += 1;
             }
-            res.max_sends = res.max_sends.max(n);
-            *res.outcome_classes.entry(class).or_insert(0) += 1;
-            for f in fs {
-                res.findings.push((f, p.clone()));
+            res.max_sends = res.max_sends.max(s.n_sends);
+            *res.outcome_classes.entry(std::mem::take(&mut s.class)).or_insert(0) += 1;
+            for f in s.findings.drain(..) {
+                res.findings.push((f, s.plan.clone()));
             }
         }
         res.per_level.push(level.len() as u64);
@@ -98,56 +117,52 @@ pub fn explore(ctx: &Ctx, scn: &Scenario, cfg: &ExploreCfg) -> ExploreResult {
             break;
         }
         // children
-        let mut next_plans: Vec<Plan> = vec![];
-        for (p, l) in &level {
-            let start = p.last().map(|x| x.0 + 1).unwrap_or(0).max(cfg.min_k);
-            for w in l.wire.iter().filter(|w| w.k != usize::MAX && w.k >= start) {
-                if !(cfg.eligible)(l, w) {
-                    continue;
-                }
-                for f in &cfg.fates {
-                    let mut c = p.clone();
-                    c.push((w.k, *f));
-                    next_plans.push(c);
-                }
-            }
-        }
-        if res.runs + next_plans.len() as u64 > cfg.max_runs || ctx.budget_left() < 3.0 {
+        let n_children: u64 = level.iter().map(|s| (s.child_ks.len() * cfg.fates.len()) as u64).sum();
+        if res.runs + n_children > cfg.max_runs || ctx.budget_left() < 3.0 {
             res.capped = Some(format!(
                 "level {} would need {} more runs (cap {}, budget left {:.0}s): stopped after completing bound {}",
                 d + 1,
-                next_plans.len(),
+                n_children,
                 cfg.max_runs,
                 ctx.budget_left(),
                 d
             ));
             break;
         }
+        let mut next_plans: Vec<Plan> = Vec::with_capacity(n_children as usize);
+        for s in &level {
+            for k in &s.child_ks {
+                for f in &cfg.fates {
+                    let mut c = s.plan.clone();
+                    c.push((*k, *f));
+                    next_plans.push(c);
+                }
+            }
+        }
         let t_level = std::time::Instant::now();
         let budget = ctx.budget_left();
-        let runs: Vec<Option<(Plan, RunLog)>> = next_plans
+        let runs: Vec<Option<Slim>> = next_plans
             .into_par_iter()
             .map(|p| {
                 if t_level.elapsed().as_secs_f64() > budget - 2.0 {
                     return None;
                 }
                 let l = run(scn, &p, &Abort::None);
-                Some((p, l))
+                Some(slim(scn, cfg, p, &l))
             })
             .collect();
         let total = runs.len();
         level = runs.into_iter().flatten().collect();
         if level.len() < total {
             res.capped = Some(format!("time budget hit inside level {}: {} of {} plans executed (bound {} fully covered)", d + 1, level.len(), total, d));
-            // judge what was executed, but do not claim the bound
-            let judged: Vec<Vec<Finding>> = level.par_iter().map(|(p, l)| (cfg.judge)(scn, p, l)).collect();
-            for ((p, l), fs) in level.iter().zip(judged) {
+            // account for what was executed, but do not claim the bound
+            for s in level.iter_mut() {
                 res.runs += 1;
-                if seen.insert(l.trace_hash) {
+                if seen.insert(s.trace_hash) {
                     res.distinct_traces += 1;
                 }
-                for f in fs {
-                    res.findings.push((f, p.clone()));
+                for f in s.findings.drain(..) {
+                    res.findings.push((f, s.plan.clone()));
                 }
             }
             break;
